@@ -101,6 +101,14 @@ class MatPoly:
             return self.tr(self.poly(t[1]))
         if is_call(t, name="jax.numpy.transpose") and len(t[2]) == 1:
             return self.tr(self.poly(t[2][0]))
+        # other spellings of the transpose of a matrix: swapaxes over the two (last) axes, matrix_transpose, .mT
+        if is_call(t) and t[1][0] == "name" and t[1][1] == "jax.numpy.swapaxes" and len(t[2]) == 3 and not t[3] \
+                and {t[2][1], t[2][2]} in ({C(0), C(1)}, {C(-1), C(-2)}):
+            return self.tr(self.poly(t[2][0]))
+        if is_call(t, name="jax.numpy.matrix_transpose") and len(t[2]) == 1:
+            return self.tr(self.poly(t[2][0]))
+        if h == "attr" and t[2] == "mT":
+            return self.tr(self.poly(t[1]))
         if is_call(t, name="jax.numpy.linalg.inv") and len(t[2]) == 1:
             return self.inv(self.poly(t[2][0]))
         if is_call(t) and t[1][0] == "name" and t[1][1] in ("jax.numpy.linalg.solve", "jax.scipy.linalg.solve") and len(t[2]) == 2:
@@ -231,7 +239,7 @@ def kalman_filter_rule(ctx, rule="POLY-kalman-filter"):
     sym = {ts(x, ev) for x in (P0, Q, R)} | {f"carry#{sid}[1]"}
     # ---------- initial step
     ck = KalmanChecker(ctx, ev, rule, "state_space.kalman_filter[init]", loc, sym)
-    init = items(rec["init"])
+    init = items(rec["init"]) or ev.known_items(rec["init"])   # a tuple, or a record (NamedTuple / namedtuple) with these three fields
     if init is None or len(init) != 3:
         raise AnalysisError("kalman_filter: scan init is not (mean, cov, logZ)")
     y0 = ("idx", OBS, C(0))
@@ -257,7 +265,7 @@ def kalman_filter_rule(ctx, rule="POLY-kalman-filter"):
     S = add(mm(Cm, Ppred, T_(Cm)), R)
     K = mm(Ppred, T_(Cm), inv(S))
     innov = sub(yt, mm(Cm, mpred))
-    co = items(rec["carry_out"])
+    co = items(rec["carry_out"]) or ev.known_items(rec["carry_out"])
     if co is None or len(co) != 3:
         raise AnalysisError("kalman_filter: scan body does not return (mean, cov, logZ)")
     ck.eq("filtered mean_t = A m + K (y_t − C A m)", co[0], add(mpred, mm(K, innov)))
